@@ -15,6 +15,7 @@ Theorems about `FdtdxModel/C39.lean`, over an arbitrary linearly ordered field `
   C39_ordered_perm, C39_ordered_sorted     the common order is a permutation of the dict, ascending in the 4-entry key
   C39_lists_one_order  every per-property list, in every mode, is the projection of the SAME ordered list: entry i of each
                        list belongs to material `orderedNames[i]`
+  C39_dispersive_one_order  the rows of the dispersive coefficient arrays (c1..c4) follow the same order
   C39_order_independent  if the keys are pairwise distinct the order does not depend on the dict's insertion order
   C39_complex_roundtrip  ε' + i σ/(ω ε0) with σ = ω ε0 ε'' gives back ε'' (component-wise, ω ≠ 0, ε0 ≠ 0); real parts untouched
 -/
@@ -294,6 +295,15 @@ theorem C39_lists_one_order (sel : Mat K → List K) (mode : Nat) (ms : List (ν
   refine ⟨by simp [allowed, orderedNames], fun i h => ?_⟩
   simp [allowed, orderedNames, List.getElem?_map, List.getElem?_eq_getElem h]
 
+/-- C39_dispersive_one_order: the rows of the dispersive coefficient arrays use the same order as every other list:
+row `i` is the coefficient block of the material named `orderedNames[i]` (and there is one row per material). -/
+theorem C39_dispersive_one_order (ms : List (ν × Mat K)) :
+    (dispersiveTable ms).length = (orderedNames ms).length ∧
+    ∀ i (h : i < (ordered ms).length),
+      (orderedNames ms)[i]? = some ((ordered ms)[i]).1 ∧ (dispersiveTable ms)[i]? = some ((ordered ms)[i]).2.disp := by
+  refine ⟨by simp [dispersiveTable, orderedNames], fun i h => ?_⟩
+  simp [dispersiveTable, orderedNames, List.getElem?_map, List.getElem?_eq_getElem h]
+
 /-- C39_order_independent: with pairwise distinct keys the order is a function of the SET of materials — reordering
 the dict changes nothing.  (With tied keys Python's stable sort keeps the insertion order of the tied materials.) -/
 theorem C39_order_independent (ms ms' : List (ν × Mat K)) (hperm : ms.Perm ms')
@@ -316,7 +326,8 @@ theorem C39_order_independent (ms ms' : List (ν × Mat K)) (hperm : ms.Perm ms'
   exact hinj _ ((C39_ordered_perm ms).mem_iff.mp (List.getElem_mem h1)) _
     (hperm.mem_iff.mpr ((C39_ordered_perm ms').mem_iff.mp (List.getElem_mem h2))) e
 
-example : orderedNames [("b", (⟨[4], [1], [0], [0]⟩ : Mat ℚ)), ("a", ⟨[2], [1], [0], [0]⟩), ("c", ⟨[2], [1], [1/2], [0]⟩)]
+example : orderedNames [("b", ({ eps := [4], mu := [1], sigE := [0], sigM := [0] } : Mat ℚ)),
+    ("a", { eps := [2], mu := [1], sigE := [0], sigM := [0] }), ("c", { eps := [2], mu := [1], sigE := [1/2], sigM := [0] })]
     = ["a", "c", "b"] := by decide +kernel
 
 end order
